@@ -17,7 +17,7 @@
      specification key (all seven fields, including the path label "…/<index>").
      [eff_index index hardened] = index + 2^31 if hardened else index.  [max_depth] = 2^26. *)
 From Coq Require Import NArith ZArith List Bool.
-From PyC Require Import Base Bip32Spec Bip32Impl Bip32Proofs.
+From PyC Require Import Base Bip32Spec Bip32Impl Bip32Proofs Bip32Toy.
 Import ListNotations.
 Open Scope N_scope.
 
@@ -216,3 +216,40 @@ Theorem C16_sign : forall P : prims,
   /\ ed_verify P (w_pub w) msg sig = true.
 Proof. exact derived_key_signature. Qed.
 Print Assumptions C16_sign.
+
+(* ---- the side condition of C16_child is needed: a faithful-model witness (found by vm_compute on the
+        concrete instance Bip32Toy.toy = (Z/ell, +)) where 2^255 <= kL' < 2^256: the code stores the
+        specified key but publishes (kL' mod 2^255)·B.  Unreachable below 2^26 levels under an Icarus root
+        (C16_all_depths); reachable only through a hand-built HDWallet. ---- *)
+Theorem C16_child_beyond_2_255_refuted :
+  exists (P : prims) (w : wallet) (x x' : xprv) (w' : wallet),
+    wf_priv P w x /\ x_kL x < 2^256
+    /\ spec_ckd_priv P x 0 = Some x' /\ derive P w 0 true false = Ok w'
+    /\ w_xprv w' = Some (ser256 (x_kL x') ++ ser256 (x_kR x'))
+    /\ w_pub w' <> enc_pt P (smulB P (x_kL x')).
+Proof. exact child_beyond_2_255_refuted. Qed.
+Print Assumptions C16_child_beyond_2_255_refuted.
+
+(* ---- non-vacuity: every premise about the primitives used above holds, jointly, for a concrete instance
+        (further Examples in Bip32Toy.v run the model on it: root, CIP-1852 path, both derivation routes,
+        signature) ---- *)
+Theorem C16_premises_satisfiable : exists P : prims,
+  (forall p s : bytes, length (pbkdf2 P p s) = 96%nat)
+  /\ (forall g : G P, length (enc_pt P g) = 32%nat)
+  /\ (forall g : G P, dec_pt P (enc_pt P g) = Some g)
+  /\ (forall a b : N, smulB P (a + b) = gadd P (smulB P a) (smulB P b))
+  /\ smulB P 0 = gzero P
+  /\ smulB P ell = gzero P
+  /\ (forall g : G P, gadd P (gzero P) g = g)
+  /\ (forall a b : G P, gadd P a b = gadd P b a)
+  /\ (forall g : G P, smul P 0 g = gzero P)
+  /\ (forall (n : N) (g : G P), smul P (N.succ n) g = gadd P g (smul P n g))
+  /\ (forall a b : G P, pt_add P (enc_pt P a) (enc_pt P b) = Some (enc_pt P (gadd P a b)))
+  /\ (exists w, from_entropy P (repeat Byte.x00 16) [] = Ok w).
+Proof.
+  exists toy.
+  exact (conj toy_pbkdf2_len (conj toy_enc_len (conj toy_dec_enc (conj toy_smulB_add (conj toy_smulB_0
+        (conj toy_smulB_ell (conj toy_gadd_zero_l (conj toy_gadd_comm (conj toy_smul_0 (conj toy_smul_succ
+        (conj toy_pt_add_enc toy_root_exists))))))))))).
+Qed.
+Print Assumptions C16_premises_satisfiable.
